@@ -102,9 +102,15 @@ size_t varintEliasGammaEncode(varintBitWriter *w, uint64_t value) {
 }
 
 uint64_t varintEliasGammaDecode(varintBitReader *r) {
-    /* Count leading zeros */
+    /* Count leading zeros (never reading past the reader's bit budget) */
     size_t n = 0;
-    while (varintBitReaderRead(r, 1) == 0) {
+    while (1) {
+        if (!varintBitReaderHasMore(r, 1)) {
+            return 0; /* Truncated code */
+        }
+        if (varintBitReaderRead(r, 1) != 0) {
+            break;
+        }
         n++;
         if (n > 63) {
             return 0; /* Overflow protection */
@@ -114,6 +120,10 @@ uint64_t varintEliasGammaDecode(varintBitReader *r) {
     /* We've read the leading 1, now read remaining n bits */
     if (n == 0) {
         return 1;
+    }
+
+    if (!varintBitReaderHasMore(r, n)) {
+        return 0; /* Truncated code */
     }
 
     uint64_t remaining = varintBitReaderRead(r, n);
@@ -193,10 +203,18 @@ uint64_t varintEliasDeltaDecode(varintBitReader *r) {
         return 0; /* Decode error */
     }
 
+    if (lenN > 64) {
+        return 0; /* Not the length of any 64-bit value */
+    }
+
     size_t n = (size_t)lenN - 1;
 
     if (n == 0) {
         return 1;
+    }
+
+    if (!varintBitReaderHasMore(r, n)) {
+        return 0; /* Truncated code */
     }
 
     /* Read remaining n bits */
